@@ -46,8 +46,20 @@ def prop(tr, e):
     raise Untranslatable(f'boolean expression {key}')
 
 
+class _Gen(Gen):
+    """`VERIF_FORCE_FALLBACK=name1,name2|all` makes the named items untranslatable (testing aid for the fallback texts)"""
+
+    def item(self, name, source, node_fn, build, fallback):
+        import os
+        forced = os.environ.get('VERIF_FORCE_FALLBACK', '').split(',')
+        if name in forced or 'all' in forced:
+            def build():      # noqa: F811
+                raise Untranslatable('forced by VERIF_FORCE_FALLBACK')
+        return super().item(name, source, node_fn, build, fallback)
+
+
 def generate(repo):
-    g = Gen('C18', imports=['PrysmVerif.PyPrelude', 'PrysmVerif.Model.C18'], header=HEADER)
+    g = _Gen('C18', imports=['PrysmVerif.PyPrelude', 'PrysmVerif.Model.C18'], header=HEADER)
     sg, _ = load(repo, 'prysm/segmented.py')
     ge, _ = load(repo, 'prysm/geometry.py')
 
@@ -113,7 +125,10 @@ def generate(repo):
                 '  roll (hexRingRoll (radius : Int)).toNat\n'
                 '    (walkRing hexAdd hexRingDirs (hexRingSideLen (radius : Int)).toNat (hexRingStart (radius : Int)))')
     g.item('hex_ring', 'prysm/segmented.py:hex_ring', lambda: get_def(sg, 'hex_ring'), hex_ring,
-           f'def hexRing (radius : Nat) : List Hex := {M}.hexRing radius')
+           ('def hexRingStart (radius : Int) : Hex := ⟨-radius, radius, 0⟩\ndef hexRingSides : Nat := 6\n'
+            'def hexRingSideLen (radius : Int) : Int := radius\ndef hexRingRoll (radius : Int) : Int := radius\n'
+            f'def hexRingDirs : List Hex := {M}.hexDirs\n'
+            f'def hexRing (radius : Nat) : List Hex := {M}.hexRing radius'))
 
     # ---------------------------------------------------------------- hex_to_xy
     def consts_env():
@@ -339,8 +354,8 @@ def generate(repo):
     g.item('_generate_vertices', 'prysm/geometry.py:_generate_vertices,regular_polygon',
            lambda: ast.Module(body=[get_def(ge, '_generate_vertices'), get_def(ge, 'regular_polygon')], type_ignores=[]),
            vertices,
-           (f'def hexVertices90 {KVARS} (w radius x0 y0 : K) : List (K × K) := []\n'
-            f'def hexVertices0 {KVARS} (w radius x0 y0 : K) : List (K × K) := []'))
+           (f'def hexVertices90 {KVARS} (w radius x0 y0 : K) : List (K × K) := {M}.hexVertices90 w radius x0 y0\n'
+            f'def hexVertices0 {KVARS} (w radius x0 y0 : K) : List (K × K) := {M}.hexVertices0 w radius x0 y0'))
 
     return g.finish()
 
